@@ -91,22 +91,30 @@ def Glue.aligned (g : Glue) : Bool :=
   g.valuesFrom == expectedGlue.valuesFrom && g.compiledFrom == expectedGlue.compiledFrom &&
   g.matrix == expectedGlue.matrix
 
+/-- the remembered cache object is read AFTER `_compile_jac()` (the conversion itself puts a new cache object in place:
+    `to_symbolic_model` starts with `model._create_cache()`) -/
+def Glue.cacheReadAfter (g : Glue) : Bool := g.cacheFrom == "model._cache (read after compiling)"
+
 /-- `jac_fn(t, x)` with the facts `g`.  `clVer` = the model's cache object the closure remembers, `nowVer` = the
-    model's current one (a number that changes with every edit of the model, `_invalidate_cache`).  Returns the
-    closure's state after the call — ALSO when the call raises (the exception escapes from the solver, the closure
-    object lives on and is called again by the next simulation) — and the matrix or the error. -/
+    model's current one (a number that changes whenever the object is replaced: by every edit of the model,
+    `_invalidate_cache`, and by every conversion: after compiling it is `nowVer + 1`).  Returns the closure's state after
+    the call — ALSO when the call raises (the exception escapes from the solver, the closure object lives on and is
+    called again by the next simulation) — and the matrix or the error. -/
 def JacClosure.callG (g : Glue) (cl : JacClosure) (clVer : Nat) (now : SContent) (nowVer : Nat) (t : Rat)
     (xs : List Rat) : (JacClosure × Nat) × Except Err (List (List Rat)) :=
   match jacArgs now with
   | .error e => ((cl, clVer), .error e)
   | .ok (_, _, values) =>
     if (g.recompileOnChange && values != cl.vals) || (g.watchesModel && nowVer != clVer) then
+      -- what is remembered when the stores come first: the object from before compiling
       let stored : JacClosure × Nat :=
         ({ fn := cl.fn, vals := if g.storesValues then values else cl.vals }, if g.storesCache then nowVer else clVer)
       match compileJac now with
       | .error e => ((if g.compileBeforeStore then (cl, clVer) else stored), .error e)
       | .ok f =>
-        let st : JacClosure × Nat := ({ fn := f, vals := stored.1.vals }, stored.2)
+        let remembered : Nat :=
+          if g.storesCache then (if g.compileBeforeStore && g.cacheReadAfter then nowVer + 1 else nowVer) else clVer
+        let st : JacClosure × Nat := ({ fn := f, vals := stored.1.vals }, remembered)
         (st, evalJacFn f t xs (if g.passesCurrent then values else st.1.vals))
     else ((cl, clVer), evalJacFn cl.fn t xs (if g.passesCurrent then values else cl.vals))
 
@@ -116,6 +124,14 @@ def JacClosure.recompilesG (g : Glue) (cl : JacClosure) (clVer : Nat) (now : SCo
   match jacArgs now with
   | .error _ => false
   | .ok (_, _, values) => (g.recompileOnChange && values != cl.vals) || (g.watchesModel && nowVer != clVer)
+
+def okB {α} : Except Err α → Bool
+  | .ok _ => true
+  | .error _ => false
+
+/-- the model's cache object after `_initialise_integrator` has tried to compile: `to_symbolic_model` replaces it as soon
+    as `_create_cache()` succeeds (whatever happens later in the conversion) -/
+def verAfterCompile (c : SContent) (ver : Nat) : Nat := if okB (createCache c.toContent) then ver + 1 else ver
 
 /-- `_initialise_integrator` with the facts `g`: `.ok none` = fallback (a warning is logged, no Jacobian);
     an error = the conversion error escapes from the constructor -/
@@ -171,13 +187,16 @@ def SimState.stepG (g : Glue) (s : SimState) : SimOp → Except Err (SimState ×
   | .edit c' => .ok ({ s with content := c', version := s.version + 1 }, .upd)
   | .reinit => do
     let j ← installG g true s.content
-    pure ({ s with jac := j.map fun cl => (cl, s.version) }, .upd)
+    let v' := verAfterCompile s.content s.version
+    pure ({ s with version := v', jac := j.map fun cl => (cl, if g.cacheReadAfter then v' else s.version) }, .upd)
   | .call t xs =>
     match s.jac with
     | none => .ok (s, .noJac)
     | some (cl, ver) =>
       let r := cl.callG g ver s.content s.version t xs
-      .ok ({ s with jac := some r.1 }, match r.2 with | .ok J => .mat J | .error _ => .raised)
+      -- a compilation (also one that fails later on) has replaced the model's cache object
+      let v' := if cl.recompilesG g ver s.content s.version then s.version + 1 else s.version
+      .ok ({ s with version := v', jac := some r.1 }, match r.2 with | .ok J => .mat J | .error _ => .raised)
 
 /-- a whole history; the outputs in order.  Only a re-initialisation can end it with an error (never with the generated facts). -/
 def runG (g : Glue) : SimState → List SimOp → Except Err (SimState × List SimOut)
@@ -190,7 +209,8 @@ def runG (g : Glue) : SimState → List SimOp → Except Err (SimState × List S
 /-- `Simulator(model, use_jacobian=True)` -/
 def simInitG (g : Glue) (c : SContent) : Except Err SimState := do
   let j ← installG g true c
-  pure { content := c, version := 0, jac := j.map fun cl => (cl, 0) }
+  let v' := verAfterCompile c 0
+  pure { content := c, version := v', jac := j.map fun cl => (cl, if g.cacheReadAfter then v' else 0) }
 
 /-- the model's content after one operation (independent of the glue) -/
 def SimOp.after (c : SContent) : SimOp → SContent
